@@ -597,6 +597,97 @@ def level0_grid_check(V, tier, rng):
     return n
 
 
+# ---------------------------------------------------------------------------------------------
+# Builder.toast_base: how the caller's options reach the sampling core (Model/ToastBaseGlue.v)
+
+TB_DEFS = """
+From Coq Require Import ZArith List Bool.
+Import ListNotations.
+Definition oz_eqb (a b : option Z) : bool :=
+  match a, b with Some x, Some y => Z.eqb x y | None, None => true | _, _ => false end.
+Definition dt_eqb (a b : dataset_type) : bool :=
+  match a, b with Sky, Sky | Planet, Planet | Panorama, Panorama => true | _, _ => false end.
+Record tbcase := mkTBC { tbc_opts : tb_options; tbc_obs : tb_effect }.
+Definition chk_tb (c : tbcase) : nat :=
+  let m := toast_base (tbc_opts c) in let o := tbc_obs c in
+  if negb (Bool.eqb (te_filtered_core m) (te_filtered_core o)) then 1%nat
+  else if negb (Bool.eqb (te_planetary m) (te_planetary o)) then 2%nat
+  else if negb (Z.eqb (te_depth m) (te_depth o)) then 3%nat
+  else if negb (oz_eqb (te_parallel m) (te_parallel o)) then 4%nat
+  else if negb (dt_eqb (te_type m) (te_type o)) then 5%nat
+  else if negb (Z.eqb (te_tile_levels m) (te_tile_levels o)) then 6%nat else 0%nat.
+"""
+TB_REL = {1: "which core function is called (sample_layer / sample_layer_filtered)", 2: "the coordinate system given to the core",
+          3: "the depth given to the core", 4: "the worker count given to the core", 5: "ImageSet.data_set_type", 6: "ImageSet.tile_levels"}
+
+
+def toast_base_glue(V, rng, tier):
+    """every combination of is_planet / is_pano / coordsys= / tile_filter= / parallel= through the real
+    Builder.toast_base, with the two core entry points replaced by recorders"""
+    from unittest import mock
+    import toasty.toast as T
+    from toasty.builder import Builder
+    from toasty.pyramid import PyramidIO
+    from wwt_data_formats.enums import DataSetType
+    CS = T.ToastCoordinateSystem
+    work = common.workdir() / "tbglue"
+    terms, metas = [], []
+    combos = [(pl, pa, cs, fl, par, d) for pl in (False, True) for pa in (False, True) for cs in (None, False, True)
+              for fl in (False, True) for par in (None, 1, 3) for d in (0, 2)]
+    if tier == "quick":
+        rng.shuffle(combos)
+        combos = combos[:60]
+    for pl, pa, cs, fl, par, d in combos:
+        rec = {}
+
+        def fake_sl(pio, sampler, depth, coordsys=CS.ASTRONOMICAL, format=None, parallel=None, cli_progress=False):
+            rec.update(filtered=False, planetary=(coordsys == CS.PLANETARY), depth=depth, parallel=parallel)
+
+        def fake_slf(pio, tile_filter, sampler, depth, coordsys=CS.ASTRONOMICAL, parallel=None, cli_progress=False):
+            rec.update(filtered=True, planetary=(coordsys == CS.PLANETARY), depth=depth, parallel=parallel)
+
+        kw = {}
+        if cs is not None:
+            kw["coordsys"] = CS.PLANETARY if cs else CS.ASTRONOMICAL
+        if fl:
+            kw["tile_filter"] = lambda t: True
+        if par is not None:
+            kw["parallel"] = par
+        case = dict(kind="toast_base_glue", is_planet=pl, is_pano=pa, coordsys=None if cs is None else ("planetary" if cs else "astronomical"),
+                    tile_filter=fl, parallel=par, depth=d)
+        shutil.rmtree(work, ignore_errors=True)
+        b = Builder(PyramidIO(str(work), default_format="png"))
+        try:
+            with mock.patch.object(T, "sample_layer", fake_sl), mock.patch.object(T, "sample_layer_filtered", fake_slf):
+                b.toast_base(lambda lon, lat: None, d, is_planet=pl, is_pano=pa, **kw)
+        except Exception as e:  # noqa: BLE001
+            V.disagreement("Builder.toast_base returns", case, "returns", repr(e), True)
+            continue
+        if not rec:
+            V.disagreement("Builder.toast_base calls one of the two sampling entry points", case, "a call", "none", True)
+            continue
+        ty = {DataSetType.SKY: "Sky", DataSetType.PLANET: "Planet", DataSetType.PANORAMA: "Panorama"}.get(b.imgset.data_set_type, "Sky")
+        gb = lambda v: "true" if v else "false"       # noqa: E731
+        goz = lambda v: "None" if v is None else f"(Some {int(v)}%Z)"   # noqa: E731
+        gcs = "None" if cs is None else f"(Some {gb(cs)})"
+        terms.append(f"(mkTBC (mkTB {gb(pl)} {gb(pa)} {gcs} {gb(fl)} {goz(par)} {d}%Z) "
+                     f"(mkTE {gb(rec['filtered'])} {gb(rec['planetary'])} {int(rec['depth'])}%Z {goz(rec['parallel'])} {ty} {int(b.imgset.tile_levels)}%Z))")
+        metas.append((case, dict(core="sample_layer_filtered" if rec["filtered"] else "sample_layer", planetary=rec["planetary"],
+                                 depth=rec["depth"], parallel=rec["parallel"], data_set_type=ty, tile_levels=int(b.imgset.tile_levels))))
+        # the statement's side: a request for the planetary system must reach the core on both routes
+        want = cs if cs is not None else pl
+        if rec["planetary"] != want:
+            V.disagreement("C06 through Builder.toast_base: the core is given the coordinate system the caller asked for "
+                           "(theorem toast_base_system_rule)", case, "planetary" if want else "astronomical",
+                           "planetary" if rec["planetary"] else "astronomical", True)
+    shutil.rmtree(work, ignore_errors=True)
+    bad = common.coq_eval_sharded(TB_DEFS, terms, "chk_tb", ["Model.ToastBaseGlue"], shard=200, jobs=2, name="c06tb")
+    for i, code in bad.items():
+        case, obs = metas[i]
+        V.disagreement("ToastBaseGlue.v ~ Builder.toast_base: " + TB_REL.get(code, str(code)), case, "model value (vm_compute)", obs, None)
+    return len(terms)
+
+
 def run(ctx, V):
     rng = common.rng_for(ctx["seed"], "C06")
     tier = ctx["tier"]
@@ -638,8 +729,9 @@ def run(ctx, V):
             V.disagreement(rel, case, dict(model_code=code, meaning={0: "as coded", 50: "as repaired", 1: "neither"}.get(code)),
                            dict(failures=[list(f) for f in fails[:6]], exception=exc), bool(fails), finding_key=key)
     n_l0 = level0_grid_check(V, tier, rng)
+    n_tb = toast_base_glue(V, common.rng_for(ctx["seed"], "C06tb"), tier)
     samples = [dict(case=c, files=None if o is None else len(o)) for c, o, _f, _e in results[3:6]]
-    return dict(evaluations=len(cases) + n_l0, distinct_nontrivial=len(nontrivial), tiles_compared_pixel_exact=n_tiles,
+    return dict(evaluations=len(cases) + n_l0 + n_tb, toast_base_option_combinations=n_tb, distinct_nontrivial=len(nontrivial), tiles_compared_pixel_exact=n_tiles,
                 level0_grid_points=n_l0,
                 rule="cases = (default format, format override, clobber/update, pixel kind f64/i32/rgb/rgba, depth 0-3, coordinate "
                      "system, parallel 1/2 (real fork), route direct/Builder.toast_base, 1-2 passes with accept tables and "
